@@ -1,5 +1,6 @@
 """Harness plumbing: jobs, findings, parallel exploration."""
-import os, time, json, traceback, multiprocessing, hashlib
+import os, sys, time, json, traceback, multiprocessing, hashlib, threading
+sys.setrecursionlimit(100000); threading.stack_size(512 * 1024 * 1024)
 import z3
 from .values import *
 from .vm import VM, Explorer, Violation
